@@ -524,6 +524,12 @@ class Evaluator:
                     # other statement-level call: evaluate (pure helpers are inlined), record as an effect
                     out = []
                     for c2, v in self.ev(st.value, env, ctx):
+                        if isinstance(v, Raise):
+                            out.append((conds | c2, env, v))        # a validating helper rejected: no effect, the path ends
+                            continue
+                        if v is NONE:
+                            out.append((conds | c2, env, None))     # an inlined pure helper that returns nothing did nothing
+                            continue
                         e2 = dict(env)
                         self._fx(e2, ("expr", as_term(v)))
                         out.append((conds | c2, e2, None))
